@@ -299,6 +299,8 @@ def rule_projector(rep: Report, repo: Repo):
     herm = a.get("_hermitian")
     ok = False
     if herm is not None:
+        from .sem import Scope, inline
+        herm = inline(herm, Scope(repo.trees["linalg"], init))  # a module-level predicate helper is expanded
         atoms = herm.values if isinstance(herm, ast.BoolOp) and isinstance(herm.op, ast.Or) else [herm]
         allowed = {f"{left_p} is None", f"{left_p} is {vecs_p}", f"{vecs_p} is {left_p}",
                    f"np.array_equal({left_p}, {vecs_p})", f"np.array_equal({vecs_p}, {left_p})"}
